@@ -143,7 +143,9 @@ def programs(draw, base):
     untouched = [p.id for p in info.parameters.kernel_parameters if p.id not in replaced and p.type != "orientation"]
     insert_after = None
     if draw(st.booleans()):
-        keys = [""] + untouched
+        # new parameters may also be placed after the last orientation angle of the base model (between the
+        # angles the library refuses: "phi must follow theta")
+        keys = [""] + untouched + [p.id for p in info.parameters.kernel_parameters if p.type == "orientation"][-1:]
         insert_after = {}
         remaining = list(news)
         while remaining:
